@@ -22,3 +22,13 @@ Check (C17_equal_ticks_equal_writer : (forall m p p' d k,
   (forall e, snd (write_video m p d k) = Some e <-> snd (write_video m p' d k) = Some e) ->
   snd (write_video m p d k) = None ->
   m_writer (fst (write_video m p d k)) = m_writer (fst (write_video m p' d k)))%type).
+Check (C17_explicit_path_equivalent : (forall b script m0 ops,
+  build b script = inl m0 ->
+  snd (run m0 (explicit_of m0 ops)) = snd (run m0 ops) /\
+  m_writer (fst (run m0 (explicit_of m0 ops))) = m_writer (fst (run m0 ops)))%type).
+Check (C17_explicit_path_same_file : (forall b script m0 ops,
+  build b script = inl m0 -> sink_of (fst (run m0 (explicit_of m0 ops))) = sink_of (fst (run m0 ops)))%type).
+Check (C17_clocks_round_trip : (forall b script m0 ops, build b script = inl m0 ->
+  decode64 (encode64 (m_cur_vpts (fst (run m0 ops)))) = m_cur_vpts (fst (run m0 ops)) /\
+  decode64 (encode64 (m_cur_apts (fst (run m0 ops)))) = m_cur_apts (fst (run m0 ops)))%type).
+Check (C17_alias_script_same_builder : (forall l, run_builder (map alias_bop l) = run_builder l)%type).
